@@ -131,7 +131,7 @@ def run(rep):
                        "tailstrict is not generated (a parenthesised or renamed call is not in tail position by design)"]
     vlib.prelude(rep)
     rng = rep.rng
-    n = 500 if rep.tier == 'quick' else 12000
+    n = 1500 if rep.tier == 'quick' else 12000
     gen = G.Gen(rng, max_depth=5)
     progs = [gen.program() for _ in range(n)]
     # 1. correspondence (values, errors, trace sequences)
